@@ -75,6 +75,9 @@ type CGCliStep struct {
 	// Sparse: the model file omits empty arrays (valid JSON a user may write by hand); used for
 	// `call` only, whose command decodes into a fresh variable
 	Sparse bool `json:"sparse,omitempty"`
+	// UseDefault: no -d is given: the command reads coca_reporter/deps.json, which holds model 0
+	// since before the first command (only drawn for steps on model 0)
+	UseDefault bool `json:"use_default,omitempty"`
 }
 
 type CGScenario struct {
@@ -84,6 +87,8 @@ type CGScenario struct {
 	// persists (durable state); the steps of one process run in that OS process one after the
 	// other (what coca's own command tests do), a new process is a restart.
 	CliProcs [][]CGCliStep `json:"cli_procs,omitempty"`
+	// CliTmpOtherFS[i]: CLI process i runs with $TMPDIR on another file system
+	CliTmpOtherFS []bool `json:"cli_tmp_other_fs,omitempty"`
 }
 
 // ---- generator ----
@@ -169,7 +174,7 @@ func genModel(t *tape.Tape, thorough bool) []MClass {
 			}
 			if t.Bool(1, 25) {
 				// names that are keywords elsewhere are ordinary method names in a model
-				name = []string{"new", "super", "this", "default", "init", "x", "r", "com", "p"}[t.Pick(9)] // keywords elsewhere; or equal to a package segment
+				name = []string{"new", "super", "this", "default", "init", "x", "r", "com", "p", "a->b", "m1", "m10"}[t.Pick(12)] // keywords elsewhere; or equal to a package segment
 				for _, f := range c.Functions {
 					if f.Name == name {
 						name = fmt.Sprintf("m%d", j)
@@ -180,6 +185,11 @@ func genModel(t *tape.Tape, thorough bool) []MClass {
 			if j == 0 && t.Bool(1, 6) {
 				name = c.NodeName // a constructor: function named like its class
 				isCtor = true
+			}
+			for _, f := range c.Functions {
+				if f.Name == name {
+					name = fmt.Sprintf("u%d", j) // method full names are unique within a model
+				}
 			}
 			c.Functions = append(c.Functions, MFunc{Name: name, IsConstructor: isCtor})
 			decls = append(decls, decl{c.Package, c.NodeName, name})
@@ -355,12 +365,17 @@ func genCGScenario(t *tape.Tape, tier string) *CGScenario {
 				if t.Bool(1, 2) {
 					st.Cmd = "rcall"
 				} else {
-					st.Lookup = t.Bool(1, 3)
+					st.Lookup = t.Bool(1, 2)
 					st.Sparse = t.Bool(1, 2)
+				}
+				if mi == 0 && t.Bool(1, 2) {
+					st.UseDefault = true
+					st.Sparse = false
 				}
 				steps = append(steps, st)
 			}
 			sc.CliProcs = append(sc.CliProcs, steps)
+			sc.CliTmpOtherFS = append(sc.CliTmpOtherFS, t.Bool(1, 3))
 		}
 	}
 	return sc
@@ -844,9 +859,18 @@ func runCG(id string, ctx *sim.RunCtx, data json.RawMessage) (*sim.Outcome, erro
 				return nil, sim.Harness("%v", err)
 			}
 		}
+		// the default dependence file exists before any command runs (as after `coca analysis`)
+		os.MkdirAll(filepath.Join(cwd, "coca_reporter"), 0755)
+		if err := writeJSON(filepath.Join(cwd, "coca_reporter", "deps.json"), sc.Models[0]); err != nil {
+			return nil, sim.Harness("%v", err)
+		}
 		steps := 0
 		for pi, st := range sc.CliProcs {
 			proc := &sim.Proc{Schedule: sim.Canonical(), Cwd: cwd}
+			if pi < len(sc.CliTmpOtherFS) && sc.CliTmpOtherFS[pi] {
+				proc.TmpOtherFS = true
+				out.Faults["tmpdir-on-other-fs"]++
+			}
 			for _, s := range st {
 				file := fmt.Sprintf("full%d.json", s.Model)
 				if s.Sparse && s.Cmd == "call" {
@@ -856,9 +880,15 @@ func runCG(id string, ctx *sim.RunCtx, data json.RawMessage) (*sim.Outcome, erro
 				if s.Cmd == "call" {
 					// every flag is given explicitly: cobra keeps flag values between in-process runs
 					args := []string{"call", "-c", s.Root, "-d", file, fmt.Sprintf("-l=%v", s.Lookup), "-r", ""}
+					if s.UseDefault {
+						args = []string{"call", "-c", s.Root, "-d", "coca_reporter/deps.json", fmt.Sprintf("-l=%v", s.Lookup), "-r", ""}
+					}
 					proc.Ops = append(proc.Ops, sim.Op{Op: "cli", Args: map[string]interface{}{"args": args, "read": []string{"coca_reporter/call.dot"}}})
 				} else {
 					args := []string{"rcall", "-c", s.Root, "-d", file, "-r", ""}
+					if s.UseDefault {
+						args = []string{"rcall", "-c", s.Root, "-d", "coca_reporter/deps.json", "-r", ""}
+					}
 					proc.Ops = append(proc.Ops, sim.Op{Op: "cli", Args: map[string]interface{}{"args": args, "read": []string{"coca_reporter/rcall.dot", "coca_reporter/rcallmap.json"}}})
 				}
 			}
